@@ -7,8 +7,15 @@ QUICK = [
     ("enh-arb", ["enhanced=1", "req=0:3115b5090100", "submit=1", "qq=03", "zz=fe", "nn=0", "snn=0", "win=03,11", "buslost=1", "echofaults=0"]),
     ("gensyn", ["gensyn=1", "req=0:31feb50900", "submit=1", "qq=03", "zz=fe", "nn=0", "snn=0", "win=03", "echofaults=0"]),
 ]
-THOROUGH = QUICK
+THOROUGH = QUICK + [
+    ("arb-lock5", ["req=0:3115b50901a9", "submit=1", "qq=03", "zz=fe", "nn=0", "snn=1", "win=03,11,15", "buslost=2", "lock=5", "maxnodes=1500000"]),
+    ("arb-submit-always", ["req=0:3115b5090100", "submit=2", "qq=03", "zz=fe,15", "nn=0", "snn=0", "win=03,11", "buslost=1", "echofaults=0", "maxnodes=1500000"]),
+    ("answer-and-request", ["answer=1", "ans=aa:36:b509:-:00", "req=0:31feb50900", "submit=1", "qq=03", "zz=36,fe", "nn=0", "snn=0", "win=03", "echofaults=0"]),
+]
 
 
 def run(ctx):
-    pc.run_configs(ctx, "C03", "t", THOROUGH if ctx.thorough else QUICK)
+    n = 400000 if ctx.thorough else 40000
+    rnd = [("rnd-plain", n, ["req=0:3115b50900", "req=1:3115b50900", "buslost=1", "lock=5"]),
+           ("rnd-enh", n, ["enhanced=1", "req=0:3115b50900", "buslost=1"])]
+    pc.run_configs(ctx, "C03", "t", THOROUGH if ctx.thorough else QUICK, random_runs=rnd)
